@@ -119,13 +119,13 @@ def run(pid, tier, replay=None):
         # (iv) built-in spellings: two expressions share an id exactly when their identity normal forms agree
         from checks import texprcommon as T
         cases = T.corpus(c, thorough, thorough)
-        tr2 = T.observe(c, cases, 70, 0, limit=None if thorough else 8)
+        tr2 = T.observe(c, cases, 70, 0, limit=None)
         T.validate(c, "C05", tr2)
     if pid == "C02":
         # the decisive leg on REAL types: universe extraction through MetaType::type_info() vs the registry
         from checks import texprcommon as T, derivecommon as DC
         cases = T.corpus(c, thorough, thorough)
-        tr4 = T.observe(c, cases, 70, 0, limit=None if thorough else 8)
+        tr4 = T.observe(c, cases, 70, 0, limit=None)
         T.validate(c, "C02", tr4)
         decls = DC.declarations(c, tier, with_encoded_as=True, nrand=600 if thorough else 150, for_codec=False)
         tr5, failed = DC.observe(c, decls, False, 0)
@@ -135,7 +135,7 @@ def run(pid, tier, replay=None):
         # (iii) on real built-in types: each corpus program registers its expressions in three orders
         from checks import texprcommon as T
         cases = T.corpus(c, thorough, thorough)
-        tr3 = T.observe(c, cases, 70, 0, limit=None if thorough else 8)
+        tr3 = T.observe(c, cases, 70, 0, limit=None)
         T.validate(c, "C11", tr3)
     if pid == "C01":
         from checks import c10
